@@ -66,15 +66,25 @@ func (q *queue) Ack(prefix string, pkt packet.Packet) error {
 	switch p := pkt.(type) {
 	case Ackers:
 		k := hashKey(prefix, p.GetMessageId())
-		v, ok := q.msg.Delete(k)
+		// A packet of the wrong type must leave the pending exchange untouched.
+		v, ok := q.msg.Get(k)
+		if !ok {
+			return ErrWrongMID
+		}
+		if state := v.(message).state; state != pkt.Type() {
+			return fmt.Errorf("unexpected packet type: wanted %v, got %v", state, pkt.Type())
+		}
+		v, ok = q.msg.Delete(k)
 		if !ok {
 			return ErrWrongMID
 		}
 		msg := v.(message)
-		q.timeouts.Delete(k, msg.deadline)
 		if msg.state != pkt.Type() {
+			// the identifier was re-registered for another exchange in between: put it back
+			q.msg.PutIfMissing(k, msg)
 			return fmt.Errorf("unexpected packet type: wanted %v, got %v", msg.state, pkt.Type())
 		}
+		q.timeouts.Delete(k, msg.deadline)
 		msg.callback(false, msg.pkt, pkt)
 		return nil
 	default:
